@@ -151,6 +151,91 @@ CHECKS = {
         "Expected inventory follows docs/source/configuration and, where docs are silent, the keys the shipped files use; "
         "the undocumented defaults block is read as 'applies where an item has no value of its own'.",
     ),
+    "C07": (
+        "differential against an independent 30-line reference packet filter; bounded-exhaustive single- and two-rule lists x "
+        "packet domain, Hypothesis rule lists to capacity; three front doors",
+        "Nine lists (router acl, the firewall's six, two stand-alone lists with either implicit action) are populated through the "
+        "Python API, through the requests formed by the router-/firewall-acl-add/remove-rule actions, and through scenario "
+        "loading; after every add/remove/load describe_state is read back and compared position by position with "
+        "vlib/c07_ref.py; every probe compares is_permitted's verdict, the deciding rule and ALL hit counters (incl. the "
+        "implicit rule's). All single-rule lists over the covering field domain x all 304 covering packets and all ordered "
+        "two-rule lists over a reduced domain are enumerated; Hypothesis adds overlapping/shadowing lists of up to 24 rules. "
+        "Exploration with an exhaustive finite part.",
+        "The reference is written from the statement alone; port 0 (NONE) is a separately labelled sub-domain in which the "
+        "read-back decides whether the field counts as specified (three documented-ish readings, none asserted).",
+    ),
+    "C08": (
+        "bounded-exhaustive route tables vs an integer-arithmetic LPM validity predicate; generated topologies vs a reference "
+        "reachability walk; addressee and TTL/termination monitors",
+        "Every ordered table of <=3 (quick) / <=4 (thorough) routes over covering prefixes and metrics, with/without default "
+        "route, x 9 destinations: find_best_route's answer must be one of the reference's tied best entries. Generated "
+        "lan/routed/dmz/wifi/loop/ring topologies with permissive ACLs: every ordered host pair pings and does a DNS exchange, "
+        "cold and warm ARP, before/after generated interface and power toggles; success must equal an independent walk over the "
+        "scenario description (hosts: on-link or gateway; routers: LPM next hop). Observe-only wrappers check that a unicast "
+        "payload reaches software only on the node owning the destination IP, TTL strictly decreases per routing hop, TTL<1 is "
+        "never processed, and every operation ends within a frame bound (default-route loops are generated). Exploration with "
+        "an exhaustive finite part.",
+        "The walk reads 'node is ON' and 'interface enabled' from the simulator (C12 owns the power FSM); where two readings of "
+        "'default route as last resort' differ nothing is asserted.",
+    ),
+    "C09": (
+        "PBT over (observation config, all-agent histories) against an independent observation reader (scenario dict + "
+        "simulator objects)",
+        "vlib/ref_obs.py interprets the blue agent's observation_space from the scenario dict and reads every quantity from the "
+        "simulator objects (never describe_state / ObservationManager): power state, NIC status, software operating state and "
+        "visible-vs-actual health per *_requires_scan flag, file/folder health, execution/access/creation counts with the "
+        "documented threshold bins, NMNE deltas, traffic and link-load bands, ACL rows, sessions, ports; slot i <-> i-th "
+        "configured item, everything of a non-ON or missing component reads default. Compared leaf by leaf with the nested "
+        "observation after every reset/step of steered generated scenarios and shipped ones. Exploration.",
+        "Encodings the docs do not state (operating-state codes, caps) are taken from the documented notebook tables / code "
+        "as given; where docs leave a reading open both are accepted.",
+    ),
+    "C12": (
+        "model-based PBT against a reference power FSM with a convention-robust timing oracle and a gating battery; "
+        "bounded-exhaustive op sequences x node types x durations",
+        "For computer/server/switch/router/firewall/wireless-router subjects with start-up/shut-down durations 0-4: every "
+        "depth-3 (quick) / depth-4 (thorough) sequence over {shutdown,startup,reset,tick,service request,file request,ping,ARP} "
+        "containing a shutdown/reset, and Hypothesis sequences to depth 25. After every op the reference FSM must match, "
+        "T(d) in {d,d+1}, T(0)=0, T(d+1)-T(d)=1 and T equals an interference-free baseline; while not ON every interface is "
+        "disabled, no frame is accepted or emitted (observe-only wrappers, incl. frames handed directly to receive_frame), "
+        "software cannot act, ~12 well-formed requests do not succeed, ping/ARP to and through the node fail; OFF means "
+        "nothing running; back ON restores interfaces, services and applications. Exploration with an exhaustive finite part.",
+        "Status of a refused request may be failure or unreachable; services stopped by the sequence itself are C13's business.",
+    ),
+    "C13": (
+        "model-based PBT against reference service/application lifecycle FSMs; port/payload/registry consequence checks; "
+        "bounded-exhaustive sequences for 6 software types, sweeps over all shipped types",
+        "Software under test is pre-installed, declared, declared-again or absent on a two-host LAN. All sequences to depth 3/4 "
+        "for three services and three applications, a sweep of every shipped type x every non-running state x port-listener mode "
+        "followed by a peer payload, restart-duration sweeps, and Hypothesis sequences to length 30 for all 21 types. A request "
+        "succeeds iff the documented source state holds and the node is ON, a refused request changes nothing, timed "
+        "transitions obey the convention-robust band/slope; after every op open ports == ports of RUNNING software, "
+        "non-running software handles no payload, and software_manager.software / node.services+applications / request routes / "
+        "describe_state agree (one instance per name). Exploration with an exhaustive finite part.",
+        "Source-state table from docs/source/action_masking.rst; execute is 'run then act' so a failing execute is not a refusal.",
+    ),
+    "C14": (
+        "shadow-record PBT: per-item record of the last completed covering scan and pending timed operations vs (actual, visible) "
+        "health after every step; duration sweeps incl. 0",
+        "Durations {0,1,2,3,5} are set through the documented keys (fixing_duration option, defaults block, node_scan_duration); "
+        "sequences to depth 30 over compromise/corrupt/DELETE/ENCRYPT, scans of software/files/folders/node, fix/repair/restore/"
+        "delete, ticks and power events, plus an enumerated family (every timed op x every duration x one interfering event at "
+        "every position). Visible health may change only when a covering scan completes and then equals the true health; true "
+        "health changes only at addressed requests or expected timed completions; fix/scan/restore complete at T in {d,d+1} "
+        "with a constant offset per kind, d=0 within one tick. Exploration.",
+        "Timing is suspended for operations interrupted by a power event (undocumented); the visibility invariant is not.",
+    ),
+    "C19": (
+        "PBT over scripted-agent settings x seeds x blue interference; history-based schedule/gap/start-node/action-set oracle and "
+        "kill-chain stage-order oracle",
+        "Periodic, database-corrupting, probabilistic and random agents on a small routed network and the shipped UC7 "
+        "scenarios with mutated tap-001/tap-003 settings are run for 2-3 episodes under generated blue interference. From "
+        "agent.history and the kill-chain stage sampled after every step: nothing before start-variance, first action inside "
+        "the start window, gaps within frequency+-variance, count <= max_executions, constant start node from the configured "
+        "list, only the configured action; probability-0 actions/stages never taken, probability-1 always; stages advance by "
+        "single increments, FAILED from anywhere, SUCCEEDED only after the last stage, repeat flags honoured. Exploration.",
+        "Seeds are sampled; TAP scenarios are the two shipped UC7 files.",
+    ),
     "C18": (
         "PBT over topologies x link bandwidths x traffic patterns with an independent per-tick per-link accounting monitor",
         "Generated LAN/two-switch/routed/wireless topologies with bandwidths from {default, huge, k x one frame} carry generated "
@@ -164,7 +249,7 @@ CHECKS = {
     ),
 }
 
-NOT_BUILT_REASON = "check not built yet in this session (design in DESIGN.md); will be claimed when its check is registered"
+NOT_BUILT_REASON = "not claimed"
 
 
 def main():
